@@ -233,3 +233,74 @@ def r7(cx):
     fl = [c for c in b.calls if c.bb in b.live and c.primary.endswith("Write>::flush")]
     for c in hw:
         mpt(cx, b, [c], fl, "the header is flushed before VLogWriter::new returns", to=oks, key="vlog-header-unflushed")
+
+
+def _try_break_edges(b, call):
+    """CFG edges (switch block, target) taken when `call(..)?` short-circuits (Break arm of Try::branch on the call's result)"""
+    cur = call.target
+    holders = {call.dest[0]} if len(call.dest) == 1 else set()
+    for _ in range(8):
+        if cur is None:
+            return []
+        bl = b.blocks[cur]
+        for st in bl["s"]:
+            if st[0] == "=" and len(st[1]) == 1 and st[2][0] == "use" and st[2][1][0] in ("c", "m") and st[2][1][1][0] in holders:
+                holders.add(st[1][0])
+        t = bl["t"]
+        if t[0] == "call":
+            c = b.call_at[cur]
+            if any(n.endswith("Try::branch") for n in c.names) and c.args and c.args[0][0] in ("c", "m") and c.args[0][1][0] in holders:
+                sw = c.target
+                t2 = b.blocks[sw]["t"]
+                if t2[0] != "switch":
+                    return []
+                brk = [(sw, x) for v, x in t2[2] if v != "0"]
+                if not any(v == "0" for v, _ in t2[2]):
+                    brk = []
+                elif not brk:
+                    brk = [(sw, t2[3])]
+                return brk
+            cur = c.target
+            continue
+        if t[0] in ("goto", "falseedge", "falseunwind", "drop"):
+            cur = b.succ[cur][0] if b.succ[cur] else None
+            continue
+        return []
+    return []
+
+
+@rule("C07", "C07.R8", "the manifest's table enumeration ends only past the last level")
+def r8(cx):
+    """Orphan clean-up at open, value-log GC, compaction input lookup and checkpoints all enumerate the live tables through
+    LevelManifest::iter().  A table that the enumeration skips is deleted as an orphan although the manifest references it
+    (the next open fails).  Necessary condition: `LevelManifestIterator::next` returns None only through the failed lookup of
+    the *level* index (`levels.get(current_level)?`); an empty level in the middle must not end the enumeration."""
+    f = cx.f
+    bs = [b for b in f.scan_bodies() if b.name == "next" and "LevelManifestIterator" in (b.self_ty or "")]
+    if len(bs) != 1:
+        raise AnchorMissing("LevelManifestIterator::next: %d bodies" % len(bs))
+    b = bs[0]
+    gets = [c for c in b.calls if c.bb in b.live and c.primary.split("::")[-1] == "get" and c.args]
+    lv = []
+    for c in gets:
+        fn_ = origin_of_operand(b, c.args[0]).field_names()
+        if "levels" in fn_ and "tables" not in fn_:
+            lv.append(c)
+    cx.floor("level lookups in LevelManifestIterator::next", len(lv), 1)
+    cut = set()
+    for c in lv:
+        cut |= set(_try_break_edges(b, c))
+    cx.check(bool(cut), "the level lookup ends the enumeration through `?`", "manifest-iter-no-level-exit", b.where())
+    nones = [x for x, k in exits(b) if k in ("none", "err")]
+    r = reach_cut(b, [0], cut_edges=cut)
+    bad = [x for x in nones if x in r]
+    cx.check(not bad, "LevelManifestIterator::next yields None only when the level index is past the last level", "manifest-iter-ends-early", b.where(bad[0]) if bad else b.where(),
+             "LevelManifestIterator::next can return None while deeper levels have not been visited (e.g. at an empty level): get_all_tables() misses their tables, "
+             "orphan clean-up at the next open deletes files the manifest references, and the following open fails")
+    # advancing to the next level resets the table index
+    inc = [i for i, j, lhs, rv, line in b.assigns() if i in b.live and any(isinstance(p, list) and p[0] == "f" and p[2] == "current_level" for p in lhs[1:])]
+    rst = [i for i, j, lhs, rv, line in b.assigns() if i in b.live and any(isinstance(p, list) and p[0] == "f" and p[2] == "current_idx" for p in lhs[1:]) and rv[0] == "use" and rv[1][0] == "k"]
+    cx.check(bool(inc) and bool(rst) and all(any(x in b.reachable_from([i]) for x in rst) for i in inc), "moving to the next level restarts at its first table", "manifest-iter-index", b.where())
+    # consumers: orphan clean-up builds its live set from the full enumeration
+    ob = f.body("CoreInner::cleanup_orphaned_sst_files")
+    cx.check(f.may_reach(ob.id, "LevelManifest::get_all_tables") or f.may_reach(ob.id, "LevelManifest::iter"), "orphan clean-up takes the live set from the manifest enumeration", "orphan-live-set", ob.where())
